@@ -19,7 +19,8 @@ stderr).  The injector never reaps a child it killed (`waitid(..., WNOWAIT)`): r
 job and is what the zombie oracle observes.
 
 Engine E2 (histories, release clause): events {C create Script+query, Qi second query on live
-Script i, Di drop Script i, G gc.collect(), X crash}; a small reference model (ids in the
+Script i, R create Script whose first request raises helper-side (helper survives), Ei such a
+request on live Script i, Di drop Script i, G gc.collect(), X crash}; a small reference model (ids in the
 helper, pending-deletion list flushed at the next `run`, sticky crash flag per incarnation)
 predicts `len(Listener._inference_states)`, read back with an `eval` request over the existing
 protocol.
@@ -739,7 +740,9 @@ class Model:
         return self.cur
 
     def request(self, inc, sid):
-        """Script `sid` (bound to incarnation inc) runs a helper function -> expected outcome"""
+        """Script `sid` (bound to incarnation inc) sends a request -> expected outcome.  The
+        helper holds a state for the id as soon as a request for it has reached a live helper,
+        whether the function then returns or raises."""
         i = self.incs[inc]
         if i['noticed']:
             return 'InternalError'
@@ -802,6 +805,26 @@ class _HistRunner:
             del s, isp
             if out[0] == 'ok' and out[1] != ref:
                 viol.append(('history-query-differs', {'where': where}))
+        elif ev == 'R' or ev[0] == 'E':
+            # a request that makes the helper-side function raise (the helper survives):
+            # R = as the FIRST request of a new Script, Ei = as a later request of Script i
+            if ev == 'R':
+                slot = min(s for s in range(3) if s not in live)
+                inc = model.attach()
+                try:
+                    s = _new_script(self.env, HQ)
+                except Exception as e:
+                    raise _HarnessBug('Script() failed in a history: %r' % (e,))
+                isp = s._inference_state.compiled_subprocess
+                rec = live[slot] = {'script': s, 'sid': isp._inference_state_id, 'inc': inc,
+                                    'used': True}
+                del s, isp
+            else:
+                rec = live[int(ev[1])]
+            expect = model.request(rec['inc'], rec['sid'])
+            if expect == 'ok':
+                expect = 'KeyError'
+            out = _raise_live(rec['script'])
         elif ev[0] == 'Q':
             rec = live[int(ev[1])]
             out = _query_live(rec['script'], HQ, HQ2)
@@ -950,9 +973,17 @@ def _run_hchain(t):
     return {'hists': results, 'compared': ncmp}
 
 
+def _raise_live(script):
+    """One request whose function raises inside the helper (existing test hook)."""
+    return _query_live(script, None, None)
+
+
 def _query_live(script, qname, method):
     import jedi
     try:
+        if qname is None:
+            script._inference_state.compiled_subprocess._test_raise_error(KeyError)
+            return ('ok', None)
         return ('ok', _ask(script, qname, method))
     except _WouldHang as e:
         return ('exc', 'WOULD-HANG', 'would-hang@pickle_load', str(e))
@@ -975,7 +1006,16 @@ def _run_linear(t):
     for n in range(t['n']):
         inj.step_begin()
         s = _new_script(env, HQ)
-        out = _query_live(s, HQ, None)
+        if t.get('raise'):
+            # the only request of this Script raises helper-side; the helper survives
+            out = _raise_live(s)
+            if out[0] == 'ok' or out[1] != 'KeyError':
+                viol.append(('history-outcome:%s-expected-KeyError'
+                             % ('ok' if out[0] == 'ok' else out[1]), {'pair': n}))
+                break
+            out = ('ok',)
+        else:
+            out = _query_live(s, HQ, None)
         if out[0] != 'ok':
             viol.append(('history-outcome:%s-expected-ok' % out[1],
                          {'pair': n, 'detail': list(out[1:])}))
@@ -1000,7 +1040,8 @@ def _run_linear(t):
     gc.collect()
     res.check(inj, 'end of linear history', viol, final=True)
     inj.begin()
-    return {'id': 'linear:%d:keep%d' % (t['n'], keep), 'viol': _dedup(viol),
+    return {'id': 'linear:%d:keep%d%s' % (t['n'], keep, ':raise' if t.get('raise') else ''),
+            'viol': _dedup(viol),
             'steps': 2 * t['n'], 'compared': ncmp, 'obs': 'max(count-live)=%d' % worst}
 
 
@@ -1052,33 +1093,35 @@ def _work(task):
 # ------------------------------------------------------------------------------------------
 # enumeration
 
-def _histories(depth):
-    """All event sequences of exactly `depth` events (every shorter sequence is a prefix of one
-    of them and is judged after each event).  X is enabled only where a helper is alive in a
-    run from a fresh Environment (abstract helper state none/alive/dead-unnoticed): killing
-    nothing is a no-op."""
+def _histories(depth, alpha='CQDGX', need_raise=False):
+    """All event sequences of exactly `depth` events over the alphabet (every shorter sequence
+    is a prefix of one of them and is judged after each event).  X is enabled only where a helper
+    is alive in a run from a fresh Environment (abstract helper state none/alive/
+    dead-unnoticed): killing nothing is a no-op.  need_raise: only sequences with an R/E event."""
     out = []
 
     def rec(live, helper, seq):
         if len(seq) == depth:
-            out.append(list(seq))
+            if not need_raise or any(e[0] in 'RE' for e in seq):
+                out.append(list(seq))
             return
         evs = []
         if len(live) < 3:
-            evs.append('C')
-        evs += ['Q%d' % s for s in sorted(live)]
-        evs += ['D%d' % s for s in sorted(live)]
+            evs += [e for e in 'CR' if e in alpha]
+        for kind in 'QED':
+            if kind in alpha:
+                evs += ['%s%d' % (kind, s) for s in sorted(live)]
         evs.append('G')
-        if helper == 'alive':
+        if helper == 'alive' and 'X' in alpha:
             evs.append('X')
         for ev in evs:
             nl, nh = set(live), helper
-            if ev == 'C':
+            if ev in ('C', 'R'):
                 nl.add(min(s for s in range(3) if s not in live))
                 nh = 'none' if helper == 'dead' else 'alive'
             elif ev[0] == 'D':
                 nl.discard(int(ev[1]))
-            elif ev[0] == 'Q' and helper == 'dead':
+            elif ev[0] in 'QE' and helper == 'dead':
                 nh = 'none'
             elif ev == 'X':
                 nh = 'dead'
@@ -1148,13 +1191,25 @@ def _levels(tier, refs):
                        chains('s0', warm2('s0', [0]))))
         levels.append(('3 consecutive crashes (diagonal): s0, s1 all queries',
                        chains('s0', diag3('s0', [0, 1, 2])) + chains('s1', diag3('s1', [0, 1, 2]))))
-    depth = 5 if tier == 'quick' else 6
-    hs = _histories(depth)
-    levels.append(('histories depth %d (all %d sequences with effective X, all their prefixes)'
-                   % (depth, len(hs)),
-                   [{'kind': 'hchain', 'hists': c} for c in _chunks(hs, 2 * CHAIN)]))
-    levels.append(('linear create/drop x200', [{'kind': 'linear', 'n': 200, 'keep': 0},
-                                               {'kind': 'linear', 'n': 200, 'keep': 2}]))
+    def hlevel(name, hs):
+        levels.append(('%s: %d sequences, all their prefixes' % (name, len(hs)),
+                       [{'kind': 'hchain', 'hists': c} for c in _chunks(hs, 2 * CHAIN)]))
+
+    if tier == 'quick':
+        hlevel('histories depth 5 over C,Q,D,G,X', _histories(5))
+        hlevel('histories depth 5 over C,R,E,D,G with a raising request',
+               _histories(5, 'CREDG', True))
+        hlevel('histories depth 4 over C,R,Q,E,D,G,X with a raising request',
+               _histories(4, 'CRQEDGX', True))
+    else:
+        hlevel('histories depth 6 over C,Q,D,G,X', _histories(6))
+        hlevel('histories depth 5 over C,R,Q,E,D,G,X with a raising request',
+               _histories(5, 'CRQEDGX', True))
+    levels.append(('linear create/drop x200, create-raise-drop x50',
+                   [{'kind': 'linear', 'n': 200, 'keep': 0},
+                    {'kind': 'linear', 'n': 200, 'keep': 2},
+                    {'kind': 'linear', 'n': 50, 'keep': 0, 'raise': True},
+                    {'kind': 'linear', 'n': 50, 'keep': 1, 'raise': True}]))
     return levels
 
 
@@ -1260,7 +1315,8 @@ def run(ctx):
         'phase_hits': phase_hits, 'helper_function_hits': fn_hits, 'event_hits': event_hits,
         'later_faults_not_fired': unfired,
         'query_outcomes': outcome_hist, 'samples': samples,
-        'alphabet': {'phases': PHASES, 'events': ['C', 'Q0-2', 'D0-2', 'G', 'X'],
+        'alphabet': {'phases': PHASES,
+                     'events': ['C', 'R', 'Q0-2', 'E0-2', 'D0-2', 'G', 'X'],
                      'scenarios': SCENARIOS},
     })
     ctx.assumptions += [
@@ -1279,8 +1335,9 @@ def run(ctx):
         'replies are delivered through a real pipe as the first b bytes + EOF, b in {1, len//2, '
         'len-1}; "helper raises" = the request function is replaced by functions.'
         '_test_raise_error(KeyboardInterrupt | SystemExit), i.e. exceptions that end the helper; '
-        'an ordinary Exception raised by a helper function does not end the helper and is outside '
-        'the property',
+        'an ordinary Exception raised by a helper function does not end the helper: no fault '
+        'phase, but a release-clause event (R/E: functions._test_raise_error(KeyError), expected '
+        'to surface as KeyError; the helper holds the state of that Script from then on)',
         'no-hang is decided structurally: every pickle_load happens with one unanswered request '
         'outstanding on that incarnation or with the peer dead; the %ds select() watchdog only '
         'yields a harness error' % int(WATCHDOG_S),
